@@ -66,6 +66,8 @@ type Ctx struct {
 	res  *ItemResult
 	item string
 	gen  *Gen
+	// fixLen != nil: concrete text lengths (fallback mode of runItem)
+	fixLen func(maxLen int) int
 }
 
 type Driver struct {
@@ -428,7 +430,42 @@ func (c *Ctx) runItem(it Item) *ItemResult {
 				e.solver.Done()
 			}
 		}()
+		msgLevel := !strings.Contains(it.ID, "prim") && !strings.Contains(it.ID, ":C") && !strings.HasPrefix(it.ID, "stream") && !strings.HasPrefix(it.ID, "lemmas") && !strings.HasPrefix(it.ID, "pattern") && !strings.HasPrefix(it.ID, "seq:") && !strings.HasPrefix(it.ID, "sched:")
+		if msgLevel {
+			e.symLoopLimit = 3
+		}
 		it.Run(c)
+		e.symLoopLimit = 0
+		// fallback: the code loops on a symbolic text length (or the exploration ran out of budget): decide the
+		// item for concrete text lengths instead (content stays symbolic) - a reduced bound, recorded as such
+		needFallback := false
+		for _, m := range res.Inconcl {
+			if strings.Contains(m, "symbolic-trip-count loop") {
+				needFallback = true
+			}
+		}
+		if needFallback && msgLevel && c.fixLen == nil {
+			first := *res
+			*res = ItemResult{ID: it.ID}
+			modes := []struct {
+				name string
+				f    func(m int) int
+			}{
+				{"0", func(m int) int { return 0 }},
+				{"1", func(m int) int { return min(1, m) }},
+				{"half", func(m int) int { return m / 2 }},
+				{"max-1", func(m int) int { return max(m-1, 0) }},
+				{"max", func(m int) int { return m }},
+			}
+			for _, md := range modes {
+				c.fixLen = md.f
+				e.deadline = time.Now().Add(budget)
+				it.Run(c)
+			}
+			c.fixLen = nil
+			res.Imprecise = unionStr(res.Imprecise, []string{"reduced bound: the code loops on a text length (" + firstLine(first.Inconcl[0]) + "); decided for text lengths {0, 1, max/2, max-1, max} of each field (uniform), contents symbolic"})
+			res.Paths += first.Paths
+		}
 	}()
 	e.solver.Done()
 	res.Queries = e.solver.Queries - q0
